@@ -25,10 +25,11 @@ def consts(path):
 def main():
     pids = [json.loads(l)["id"] for l in open(os.path.join(V, "properties.jsonl"))]
     checks, na = [], []
+    claimed = set(open(os.path.join(V, "claimed.txt")).read().split())
     for pid in pids:
         mod = os.path.join(V, "harness", pid.lower() + ".py")
         props = os.path.join(V, "coq", "Props", pid + "_props.v")
-        if os.path.exists(mod) and os.path.exists(props):
+        if pid in claimed and os.path.exists(mod) and os.path.exists(props):
             c = consts(mod)
             checks.append({
                 "property_id": pid,
